@@ -42,15 +42,36 @@ def run(ctx):
     rp = Replay()
     filing_lemma(ctx, q, registry, mf)
     header_lemma(ctx, q, S)
+    emission_order_lemma(ctx, registry, mf)
     P = tables.parse_operand_arms()
     c02.native_roundtrip(ctx, S, rp, P)
-    native_module_roundtrip(ctx, rp)
+    c06.native_module_roundtrip(ctx, rp, loaded_only=True)
     rp.close()
     ctx.validated = rp.count
     ctx.extra["states"] = ctx.obligations
     ctx.extra["transitions"] = ctx.queries
     ctx.extra["cvc5"] = q.summary()
     ctx.extra["explanation"] = "Lemmas 2 and 4 by symbolic execution of the loader step and the header code; composition validated natively."
+
+
+def emission_order_lemma(ctx, registry, mf):
+    """Lemma 3 on this tree: `Module::assemble_into` emits the header, then the global sections in the logical-layout order of
+    the specification, then the functions (C15's sequence encoding of the assembly walkers and traversals, z3 Seq theory),
+    validated by the native traversal sweep."""
+    import c15
+    q15 = Q(ctx, cross_every=3)
+    rp = Replay()
+    real = rp.ask("traversal_sweep")
+    rp.close()
+    real_bad = real.get("mismatch")
+    if real_bad:
+        ctx.ob("emission-order/native-sweep", False, real_bad)
+        ctx.violation("roundtrip/emission-order", "the assembled order is not the logical layout on the compiled crate: %s" % real_bad, {"cmd": "traversal_sweep", "real": real})
+        return
+    try:
+        c15.symbolic_part(ctx, q15, registry, mf, 2, 2, lambda models: sym.Engine([mf], registry, models=models, eager=True, loop_bound=4), real, real_bad)
+    except (mir.Unsupported, Inconclusive) as ex:
+        ctx.ob("emission-order/encodable", None, "the traversal / assembly code cannot be encoded: %s" % str(ex)[:300])
 
 
 def filing_lemma(ctx, q, registry, mf):
@@ -203,23 +224,3 @@ def header_lemma(ctx, q, S):
             ctx.ob("header/assemble/encodable", None, str(ex)[:300])
 
 
-def native_module_roundtrip(ctx, rp):
-    """Every Builder method's instruction in a real module: assemble -> load -> assemble must give identical words."""
-    sigs = tables.builder_signatures()
-    done = 0
-    seen = set()
-    for s in sigs:
-        if not s["pub"] or s["name"] in seen or s["name"] in c06.NOT_EMITTING:
-            continue
-        if s["name"] in ("end_function", "constant_bit64", "spec_constant_bit64"):
-            continue      # the generic harness call would not be a conforming history / input (open block; 64-bit type not declared)
-        seen.add(s["name"])
-        real = rp.ask("builder_roundtrip %s" % s["name"])
-        if "error" in real:
-            continue
-        done += 1
-        if real.get("same") is False:
-            ctx.ob("native-roundtrip/%s" % s["name"], False, str(real)[:300])
-            ctx.violation("roundtrip/builder/%s" % s["name"], "a module holding the instruction of Builder::%s does not survive assemble -> load -> assemble: %s" % (
-                s["name"], str(real)[:300]), {"cmd": "builder_roundtrip %s" % s["name"], "real": real})
-    ctx.ob("native-roundtrip/%d-builder-methods" % done, True if done else None)
